@@ -112,7 +112,12 @@ class KeyFile:
         try:
             with open(filename, "rb") as fp:
                 self.__key = fp.read()
-        except OSError:
+        except OSError as err:
+            if os.path.exists(filename):
+                # the key file is there but could not be read: never overwrite an existing key
+                raise EncryptionError(
+                    "unable to read encryption key file: %s" % self.filename
+                ) from err
             self.__key = self.__generate_key()
         else:
             try:
